@@ -23,7 +23,7 @@ ASSUMPTIONS = [
 MANIFEST = {
     "level": "fault_enumeration",
     "technique": "exhaustive fault-point enumeration per generated scenario (every mutating filesystem operation x crash/error variants), oracle = correct values and recovered memoization in a fresh process",
-    "text": "For every scenario the complete list of mutating filesystem operations of the memoizing run is enumerated and each is crashed or failed in every applicable way; the damaged store must keep giving correct answers and must memoize again.",
+    "text": "For every scenario the complete list of mutating filesystem operations of the memoizing run is enumerated and each is crashed or failed in every applicable way; the surviving process (after a reported error) and fresh processes on the damaged store must keep giving correct answers and must memoize again.",
     "note": "Trusts the audit hook to see every mutating operation issued from Python; fault model as stated.",
 }
 
